@@ -194,6 +194,8 @@ class DiskProp(object):
                 elif style == "large":
                     f = fd(max_granules=28, big_ok=True)
                     f["len"] = max(f["len"], rng.randint(10000, 65535))
+                    if f["dtype"] == 0xFF and f["ftype"] != 2 and rng.chance(0.5):
+                        f["len"] = rng.choice([rng.randint(65536, 156672), 2304 * 68, 2304 * 67 + 1, 2304 * 68 - 1, 70000])
                 else:
                     f = fd(max_granules=rng.choice([1, 1, 2, 4, 10, 20]), big_ok=False)
                 need = granules_min(f["len"] + GF.disk_stream_overhead(f["ftype"], f["dtype"]))
